@@ -136,6 +136,12 @@ def tapped_length(ck, field, method, reqs, expect, case, **kw):
 CORPUS = [
     ["101111000011", "001111100011", "111111001111", "011110011110", "001111111110", "000101111111",
      "101001000011", "100110110001", "000000111100", "110001111111", "100001111111", "100111110011"],
+    # two squares that touch only at a corner (diagonal contact: two domains under face connectivity, wherever the periodic cut falls)
+    ["000000000000", "011100000000", "011100000000", "011100000000", "000011100000", "000011100000",
+     "000011100000", "000000000000", "000000000000", "000000000000", "000000000000", "000000000000"],
+    # a one-cell-wide tilted filament (cells touch only diagonally) next to a compact blob
+    ["000000000000", "010000000000", "001000000000", "000100000000", "000010000000", "000001000000",
+     "000000000000", "000000001110", "000000001110", "000000001110", "000000000000", "000000000000"],
 ]
 
 
@@ -220,6 +226,9 @@ def run_cases(ck: Check, n: int):
                             ck.fail(f"{method} with threshold='{rule}': field multiplied by 2**{int(round(math.log2(c)))}: length {v} instead of {b2}",
                                     {**sig, "check": "field_scale", "threshold": rule}, {**case, "method": method, "c": c, "threshold": rule})
             shifts = [tuple(rng.randrange(s) for s in grid.shape)]
+            if method == "droplet_detection" and kind == "corpus":
+                # corpus images: every whole-cell translation along each axis (the cut passes through every contact)
+                shifts += [tuple(k if b == a else 0 for b in range(dim)) for a in range(dim) for k in range(1, grid.shape[a])]
             if method == "droplet_detection":
                 # the count may only change when a component is cut differently by the periodic boundary: try cuts through every part
                 shifts += [tuple(rng.randrange(s) for s in grid.shape) for _ in range(3)]
